@@ -29,6 +29,14 @@ CHECKS = {
   design_ref="DESIGN.md section 4",
   note="Trusted: Go runtime/bufio, the harness' simulated reader/sink, the object generators (random residues, not cryptographically meaningful keys). Corruption positions are found format-independently (small little-endian words, 0/1 bytes); for encodings containing map keys the 'accepted but shorter' sub-check is skipped (a collided key is not a length/flag field). Allocation bound 1 GiB. bootstrapping.EvaluationKeys and bootstrapping.Parameters are not in the catalog yet.",
 ),
+"C14": dict(
+  engine="simnet",
+  technique="deterministic discrete-event network simulation of N parties and a tree of aggregators running several collective key-generation instances concurrently: seeded delay/reordering, duplication, in-transit serialization, aliasing forms of aggregation, mis-routed shares; ideal-secret oracles computed with the simulator's knowledge of all secrets; minimised choice-trace replay",
+  category="exploration",
+  text="Each run simulates 1..8 parties (each with its own CRS reader and protocol objects) and 1..3 aggregators executing 2..5 concurrent instances of the public-key, relinearisation-key (both rounds), Galois-key and generic evaluation-key protocols with drawn (LevelQ, LevelP, BaseTwoDecomposition) over moduli of unequal size. Oracles: reference polynomials bit-identical at every node; the aggregate that emerged from the network equals the index-order aggregate of the recorded shares; every gadget row of the final key satisfies b + a*s_out = P*w*s_in + e with |e| below the hard bound implied by the declared error distribution (N*B; protocol bound for the relinearisation key); the key works in the single-party evaluator (re-encrypt / rotate / relinearise, residual below a hard key-switch bound, compared with a single-party key of the ideal secret); mis-routed shares are rejected with an error and leave the aggregate unaffected; every instance terminates once all messages are delivered.",
+  design_ref="DESIGN.md section 7.1",
+  note="Trusted: lattigo ring arithmetic and CRT reconstruction as substrate of the oracles; the hard key-switch bound formula (upper bound, calibrated on single-party keys; when it exceeds Q/4 the functional oracle is skipped and counted). Mis-routing is injected only into protocols whose AggregateShares returns an error. Parameterisations for which a single-party key of the ideal secret fails the same use are counted (probe single-party-key-fails-too), not reported.",
+),
 "C15": dict(
   engine="simnet",
   technique="deterministic discrete-event network simulation of the threshold set-up and reconstruction: seeded message delay/reordering, duplication, in-transit serialization, crash of parties during and after set-up, long-lived combiners; ideal-secret oracle; minimised choice-trace replay",
